@@ -242,6 +242,7 @@ def run(ctx):
     render_kind = ch.choice(['media', 'render_body', 'text'], 'render_kind')
     pre_vary = ch.choice([None, None, 'Accept-Encoding', 'Origin, Accept-Language'], 'pre_vary')
     pre_same = ch.draw(4, 'headers_of_the_same_name_set_before') == 3
+    audit_render = ch.draw(3, 'handler_renders_error_before_raising') == 2
     # an earlier request on the same app that ends in a header-bearing built-in error
     pre_kind = ch.choice([None, None, 'method_not_allowed', 'unauthorized', 'too_many', 'range', 'unavailable'],
                          'pre_request')
@@ -291,7 +292,7 @@ def run(ctx):
                 'raise_site': raise_site, 'err': err_args, 'status': st_args, 'accept': accept,
                 'xml': xml_on, 'custom_media': custom_on, 'custom_fast': custom_fast, 'doc_fail': doc_fail,
                 'asgi': asgi, 'stack': plan,
-                'render_kind': render_kind, 'pre_vary': pre_vary, 'pre_same': pre_same, 'hostile_str': hostile,
+                'render_kind': render_kind, 'pre_vary': pre_vary, 'pre_same': pre_same, 'audit_render': audit_render, 'hostile_str': hostile,
                 'pre_request': pre_kind, 'unreadable_body': unreadable, 'stale_kind': stale_kind,
                 'stale_stream': stale_stream}
     ctx.plan_key = json.dumps(ctx.plan, sort_keys=True, default=repr)
@@ -379,9 +380,17 @@ def run(ctx):
                 else:
                     resp.media = {'abandoned': 'by the handler'}
             if beh == 'raise_http':
-                raise falcon.HTTPError(_status_of(err2), title=err2['title'], description=err2['description'],
-                                       headers=err2['headers'], href=err2['href'],
-                                       href_text=err2['href_text'], code=err2['code'])
+                e2 = falcon.HTTPError(_status_of(err2), title=err2['title'], description=err2['description'],
+                                      headers=err2['headers'], href=err2['href'],
+                                      href_text=err2['href_text'], code=err2['code'])
+                if audit_render:
+                    # the handler renders a more detailed version of the error for its own records
+                    # (with the app's JSON handler), then raises the instance as the client may see it
+                    keep = (e2.title, e2.description)
+                    e2.title, e2.description = 'internal title', 'internal detail, not for clients'
+                    e2.to_json(resp.options.media_handlers.get('application/json'))
+                    e2.title, e2.description = keep
+                raise e2
             if beh == 'raise_status':
                 raise falcon.HTTPStatus(st2['status'], headers=st2['headers'], text=st2['text'])
             resp.status = 299
